@@ -3,6 +3,8 @@
 #  1. patch only: full baseline (stable_pass all pass)   2. patch+demo: demo fails   3. demo only: demo passes
 tag=$1; base=/tmp/seed/$tag; wt=$base/wt; out=$base/out; log=$base/confirm.log
 cd $wt || exit 2
+# one shared target dir for all confirmations (sequential): registry deps are built once
+export CARGO_TARGET_DIR=/tmp/seed/shared-target
 : > $log
 git checkout -q -- . ; git clean -fdq -e target
 git apply $out/patch.diff || { echo "patch does not apply" | tee -a $log; exit 2; }
